@@ -27,7 +27,7 @@ impl Prop for C04 {
         vec!["the unoptimised compiler is the reference; the permitted difference is applied to arithmetic nodes syntactically inside never-used bindings".into()]
     }
     fn phases(&self, tier: Tier) -> Vec<Phase> {
-        vec![Phase::new("pairs", tier.pick(12000, 200000)).min_cases(tier.pick(3000, 40000)).timeouts(60, tier.pick(240, 1500))]
+        vec![Phase::new("pairs", tier.pick(12000, 300000)).min_cases(tier.pick(3000, 50000)).timeouts(60, tier.pick(240, 1500))]
     }
     fn worker(&self, _ctx: &WorkerCtx) -> Box<dyn Worker> {
         Box::new(W { vms: None, used: 0 })
